@@ -49,7 +49,14 @@ inductive XOp
   | idle (name : Bytes) (d : Nat)
   /-- the background loop's pass: `gc(now, done, false)` -/
   | tryGc (name : Bytes)
+  /-- `GenerateConsistencyToken` -/
+  | genToken (name : Bytes)
+  /-- `CheckConsistency` -/
+  | checkToken (name token : Bytes)
 deriving Inhabited
+
+/-- the token `GenerateConsistencyToken` hands out for a table -/
+def consistencyToken (name : Bytes) : Bytes := Bytes.ofString "TokenFor-" ++ name
 
 /-- which stamp a request leaves, given the state it arrived in -/
 def stampOf (s : Server) : Op → Option (Bytes × (Activity → Activity))
@@ -90,6 +97,14 @@ def xstep (y : Sys) : XOp → Sys × Resp
       if (y.activity name).quiet then
         ({ y with srv := y.srv.setTable name (gcPass y.srv.now t) }.setAct name (y.activity name).passed, .ok)
       else (y, .ok)
+  | .genToken name =>
+    match y.srv.find name with
+    | none => (y, .err .notFound)
+    | some _ => (y, .ok)   -- the token is `consistencyToken name`
+  | .checkToken name token =>
+    match y.srv.find name with
+    | none => (y, .err .notFound)
+    | some _ => if token = consistencyToken name then (y, .ok) else (y, .err .invalidArgument)
 
 /-! ### The history of one table, and what the stamps say about it -/
 
